@@ -422,6 +422,20 @@ pub fn one_with(ctx: &mut Ctx, tape: &[u32], known: &Known) -> Result<(), Fail> 
     }
 }
 
+/// libFuzzer entry: Some(message) on a violation
+pub fn fuzz_one(tape: &[u32]) -> Option<String> {
+    let known = Known { raw_fn_name_conflict: true, trait_patterns: true };
+    let case = gen_case(&mut Tape::new(tape), &known);
+    if case.attr.contains("debug") && !case.attr.contains("debug = false") {
+        return None;
+    }
+    match check(&case, false) {
+        Ok(_) => None,
+        Err(e) if e.starts_with("HARNESS") => None,
+        Err(e) => Some(format!("{e}\nattr: {}\nitem: {}", case.attr, case.item)),
+    }
+}
+
 pub fn run(ctx: &mut Ctx) {
     ctx.rule = "cases = (macro variant, attribute argument tokens, item) decoded from a proptest choice tape: well-formed and malformed option lists, \
                 fn/mod/trait/impl items of every shape plus non-supported item kinds, and constructed documented misuses; non-trivial = the expansion got \
